@@ -44,6 +44,7 @@ int main(int argc, char **argv) {
     std::string line;
     while (std::getline(std::cin, line)) {
         std::vector<std::string> f = split_ws(line);
+        case_begin(f.empty() ? std::string("?") : f[0]);
         if (f.size() < 5) { printf("%s BAD\n", f.empty() ? "?" : f[0].c_str()); continue; }
         const std::string &id = f[0];
         Src src; src.feat = unhex(f[2]); src.sill = unhex(f[3]); src.name = unhex(f[4]); src.gets = src.rels = 0;
@@ -100,6 +101,7 @@ int main(int argc, char **argv) {
         char t[48]; snprintf(t, sizeof t, " T %d/%d", src.gets, src.rels);
         printf("%s%s%s\n", id.c_str(), out.c_str(), t);
         fflush(stdout);
+        case_end();
     }
     return 0;
 }
